@@ -45,6 +45,75 @@ theorem no_calls_left :
     hasInlinable Gen.Pipeline.table mjStep = false ∧ hasInlinable Gen.Pipeline.table mjForward = false ∧
     hasInlinable Gen.Pipeline.table mjInverse = false := by decide +kernel
 
+/-! ### second layer: the constraint stage is analysed from its translated body
+
+`mj_fwdConstraint` (with the static `warmstart` inlined) and `mj_invConstraint` are atomic stages of the pipeline
+programs above; their entries in the footprint table are not taken on faith: the translated bodies
+(`Gen.Pipeline.subTable`, regenerated on every run) are analysed against the footprints of their LEAF calls (the
+solvers, `mj_constraintUpdate`, `mj_mulJacVec`, …), for every solver the engine accepts and every value of the other
+option flags (warm start on / off, islands or monolithic, dense / sparse, noslip on / off are all joined), and the result
+must refine the table entry.  A branch that stops determining an array before a leaf reads it (e.g. the cold start not
+clearing `efc_force`, which the dual solvers iterate on in place) breaks `fwdConstraint_refines_footprint`. -/
+
+/-- a group listed in `scalarGroups` is the group of exactly one member of `struct mjData_`, so that overwriting that
+    member determines the group -/
+theorem singleton_groups_have_one_member :
+    scalarGroups.all (fun g => (Gen.DataFields.fieldNames.filter (fun f => decide (g ∈ grp f))).length == 1) = true := by
+  decide +kernel
+
+/-- every leaf call of the second layer has a footprint (the island dispatch for every solver) -/
+theorem all_leaves_have_footprints :
+    (none :: solverNames.map some).all (fun s =>
+      Gen.Pipeline.subStageKeys.all (fun k => ((ctxS s).stage k).isSome)) = true := by decide +kernel
+
+theorem no_sub_calls_left :
+    hasInlinable Gen.Pipeline.subTable mjFwdConstraint = false ∧
+    hasInlinable Gen.Pipeline.subTable mjInvConstraint = false := by decide +kernel
+
+/-- the translated bodies are the functions they claim to be (a missing function would leave a bare call) -/
+theorem sub_programs_are_bodies :
+    stageKeys mjFwdConstraint ≠ ["mj_fwdConstraint"] ∧ stageKeys mjInvConstraint ≠ ["mj_invConstraint"] := by
+  decide +kernel
+
+/-- `a` (the analysis of a stage body) refines the stage footprint `fp`: nothing unknown, reads ⊆ `fp.R` (+ the function's
+    own locals), writes ⊆ `fp.W` (+ locals and the balanced stack), and every group of `fp.K` — except `empty`, the
+    groups that have no elements in the analysed case — is determined on every normal exit -/
+def refines (fp : Option (Footprint Grp)) (a : AFlow Grp) (empty : List Grp) : Bool :=
+  match fp, a.killN with
+  | some fp, some k =>
+    a.bad.isEmpty && subset a.rbw (fp.R ++ [locals]) && subset a.may (fp.W ++ [locals, stack]) &&
+      subset (diff fp.K empty) k
+  | _, _ => false
+
+/-- arrays with `d->nefc` elements: empty when there are no constraints -/
+def nefcSized : List Grp := [efc_force, efc_b]
+
+/-- the configuration "solver `s`, `nefc ≠ 0` is `b`" -/
+def conCfg (s : Option String) (b : Bool) : Cfg := { solver := s, extra := [("nefc", b)] }
+
+/-- **mj_fwdConstraint respects its table footprint**, for each of the three solvers, with and without constraint
+    rows, and for every value of the remaining flags: its inputs are the position / velocity / smooth-dynamics groups
+    and `qacc_warmstart`; `qfrc_constraint`, `efc_force`, `efc_b`, `solver_niter`, `qacc` are determined. -/
+theorem fwdConstraint_refines_footprint :
+    solverNames.all (fun s =>
+      refines (stageNoSleep "mj_fwdConstraint") (analyzeS (conCfg (some s) true) mjFwdConstraint) [] &&
+      refines (stageNoSleep "mj_fwdConstraint") (analyzeS (conCfg (some s) false) mjFwdConstraint) nefcSized) = true := by
+  decide +kernel
+
+/-- **mj_invConstraint respects its table footprint** (no solver involved) -/
+theorem invConstraint_refines_footprint :
+    refines (stageNoSleep "mj_invConstraint") (analyzeS (conCfg none true) mjInvConstraint) [] = true ∧
+    refines (stageNoSleep "mj_invConstraint") (analyzeS (conCfg none false) mjInvConstraint) nefcSized = true := by
+  decide +kernel
+
+/-- non-vacuity: without fixing the solver the island dispatch is the union of the dual and the primal solvers, and
+    the analysis does report the island copies among the inputs — the per-solver statement above is needed -/
+theorem fwdConstraint_unknown_solver_reads_island_copies :
+    iacc ∈ (analyzeS (conCfg none true) mjFwdConstraint).rbw := by decide +kernel
+
+/-- the dual solvers' dependency is real in the model: PGS reads `efc_force` (its initial iterate) -/
+theorem pgs_reads_efc_force : efc_force ∈ solverDual.R := by decide
+
 /-! ### what the pipeline reads before it determines it -/
 
 /-- groups that are equal in any two `mjData` of one model that are at rest (between API calls):
@@ -90,7 +159,8 @@ theorem forward_sleep_inputs_partial :
 
 /-- the groups compared by the oracle after mj_forward -/
 def forwardOutputs : List Grp :=
-  [pos, ePos, sensPos, vel, subtreevel, eVel, sensVel, actuation, smooth, cfrc, csol, Grp.qacc, rnepost, sensAcc]
+  [pos, ePos, sensPos, vel, subtreevel, eVel, sensVel, actuation, smooth, cfrc, efc_force, csol, efc_b, Grp.qacc, rnepost,
+   sensAcc]
 
 theorem forward_determines_outputs :
     ∃ k, (analyze {} mjForward).killN = some k ∧ subset forwardOutputs k = true := by
@@ -105,7 +175,7 @@ theorem step_determines_state :
         | some k => subset stepStateOutputs k
         | none => false) = true := by decide +kernel
 
-def inverseOutputs : List Grp := [pos, vel, cfrc, qfrc_inverse, sensPos, sensVel, sensAcc]
+def inverseOutputs : List Grp := [pos, vel, cfrc, efc_force, qfrc_inverse, sensPos, sensVel, sensAcc]
 
 theorem inverse_determines_outputs :
     ∃ k, (analyze {} mjInverse).killN = some k ∧ subset inverseOutputs k = true := by
@@ -137,6 +207,58 @@ theorem run_noninterference (c : Cfg) (p : Prog) (fuel : Nat) (M : MEnv) (S : Se
     have := hk'.symm.trans hk
     exact Option.some.inj this
   exact this ▸ hag'
+
+/-- the same for a second-layer program (context `ctxS`, which resolves the island dispatch by the solver) -/
+theorem sub_noninterference (c : Cfg) (p : Prog) (fuel : Nat) (M : MEnv) (S : Sem (Grp → V))
+    (hK : Extends M S (known c)) (hR : Respects (ctxS c.solver) S p) (hbad : (analyzeS c p).bad = [])
+    (I : List Grp) (hI : subset (analyzeS c p).rbw I = true) (d d' : Grp → V) (hag : Agree I d d') :
+    (run fuel M S [] p d).1 = (run fuel M S [] p d').1 ∧
+    Agree I (run fuel M S [] p d).2 (run fuel M S [] p d').2 ∧
+    ((run fuel M S [] p d).1 = .norm → ∀ k, (analyzeS c p).killN = some k →
+      Agree k (run fuel M S [] p d).2 (run fuel M S [] p d').2) := by
+  have h := abs_sound (C := ctxS c.solver) (K := known c) fuel hK p [] [] (EnvLe.refl _) hR hbad I
+    (subset_iff.mp hI) d d' hag
+  refine ⟨h.out, h.agree, ?_⟩
+  intro hn k hk
+  obtain ⟨k', hk', hag'⟩ := h.norm hn
+  have : k' = k := by
+    have := hk'.symm.trans hk
+    exact Option.some.inj this
+  exact this ▸ hag'
+
+/-- what the constraint stage reads / determines according to the footprint table -/
+def fwdConstraintInputs : List Grp := [pos, vel, smooth, qacc_warmstart, memc, stack, locals]
+def fwdConstraintOutputs : List Grp := [cfrc, efc_force, csol, efc_b, Grp.qacc]
+
+/-- **mj_fwdConstraint is a function of its table inputs** (models with constraint rows, each solver, any warm-start /
+    island / noslip / sparsity setting, any content of the rest of the mjData — stale arena bytes included): for every
+    interpretation of the leaf calls respecting the leaf footprints, two data that agree on the inputs end the same
+    way and agree on the constraint forces, `efc_b`, `solver_niter` and `qacc`. -/
+theorem fwdConstraint_deterministic (s : String) (hs : s ∈ solverNames)
+    (fuel : Nat) (M : MEnv) (S : Sem (Grp → V))
+    (hK : Extends M S (known (conCfg (some s) true))) (hR : Respects (ctxS (some s)) S mjFwdConstraint)
+    (d d' : Grp → V) (hag : Agree fwdConstraintInputs d d') :
+    (run fuel M S [] mjFwdConstraint d).1 = (run fuel M S [] mjFwdConstraint d').1 ∧
+    ((run fuel M S [] mjFwdConstraint d).1 = .norm →
+      Agree fwdConstraintOutputs (run fuel M S [] mjFwdConstraint d).2 (run fuel M S [] mjFwdConstraint d').2) := by
+  have hall := List.all_eq_true.mp fwdConstraint_refines_footprint s hs
+  simp only [Bool.and_eq_true] at hall
+  have h1 := hall.1
+  unfold refines at h1
+  have hfp : stageNoSleep "mj_fwdConstraint" = some
+      { R := [pos, vel, smooth, qacc_warmstart] ++ mem
+        W := [cfrc, efc_force, cstate, csol, efc_b] ++ islandGroups ++ [Grp.qacc, diag]
+        K := [cfrc, efc_force, csol, efc_b, Grp.qacc] } := rfl
+  rw [hfp] at h1
+  cases hk : (analyzeS (conCfg (some s) true) mjFwdConstraint).killN with
+  | none => simp [hk] at h1
+  | some k =>
+    simp only [hk, Bool.and_eq_true, List.isEmpty_iff] at h1
+    obtain ⟨⟨⟨hbad, hrbw⟩, _⟩, hkill⟩ := h1
+    have h := sub_noninterference (conCfg (some s) true) mjFwdConstraint fuel M S hK hR hbad
+      fwdConstraintInputs hrbw d d' hag
+    refine ⟨h.1, fun hn => ?_⟩
+    exact (h.2.2 hn k hk).mono (subset_iff.mp hkill)
 
 /-- the hypothesis `Respects` is satisfiable: an interpretation that overwrites a written group with a
     constant respects a footprint that determines it -/
